@@ -4,6 +4,8 @@ package pure
 
 import (
 	"fmt"
+	"net"
+	"reflect"
 	"sort"
 	"testing"
 	"time"
@@ -29,6 +31,10 @@ type c17Step struct {
 	// several members; the same member may even appear twice, the last entry
 	// is the latest)
 	More []int `json:"more,omitempty"`
+	// Var selects the rest of the member record carried by the event (address
+	// in either byte form or none, port, status, protocol numbers): the same
+	// member may arrive with another address, different members with the same.
+	Var int `json:"v,omitempty"`
 }
 
 type c17Case struct {
@@ -38,28 +44,85 @@ type c17Case struct {
 	// pause. Quantum boundaries are the timers' business there, so only the
 	// claims that hold for ANY cut are judged.
 	Loop bool `json:"loop,omitempty"`
+	// Names: the member names of this case (index = Member); empty = node0..3.
+	Names []string `json:"names,omitempty"`
+	// SmallOut: 0 = every flush goes to a roomy channel; n>0 = to a channel of
+	// capacity n-1 that a consumer goroutine drains while Flush runs (as the
+	// event pipeline behind coalesceLoop does).
+	SmallOut int `json:"small_out,omitempty"`
 }
 
 var c17Kinds = []serf.EventType{serf.EventMemberJoin, serf.EventMemberLeave, serf.EventMemberFailed, serf.EventMemberUpdate, serf.EventMemberReap}
+
+// names that are easy to confuse, contain the separators used elsewhere in
+// serf, or are empty: each is a member of its own
+var c17OddNames = []string{"", " ", "a", "A", "a ", " a", "a:b", "a/b", "a=b", "a.b", "node1", "node10", "Node1", "node1\x00", "n\u00f6de"}
 
 func genC17(t *rapid.T) c17Case {
 	n := rapid.IntRange(1, 40).Draw(t, "n")
 	nm := rapid.IntRange(1, 4).Draw(t, "members")
 	var c c17Case
+	if rapid.IntRange(0, 2).Draw(t, "oddNames") == 0 {
+		perm := rapid.Permutation(c17OddNames).Draw(t, "names")
+		c.Names = append([]string(nil), perm[:nm]...)
+	}
 	for i := 0; i < n; i++ {
 		k := rapid.SampledFrom([]int{0, 1, 2, 3, 3, 4, 5, 5}).Draw(t, "kind")
 		st := c17Step{Kind: k, Member: rapid.IntRange(0, nm-1).Draw(t, "m"), Tag: rapid.IntRange(0, 3).Draw(t, "tag")}
 		if k < 5 && rapid.IntRange(0, 4).Draw(t, "multi") == 0 {
 			st.More = rapid.SliceOfN(rapid.IntRange(0, nm-1), 1, 3).Draw(t, "more")
 		}
+		if k < 5 && rapid.IntRange(0, 1).Draw(t, "varied") == 0 {
+			st.Var = rapid.IntRange(0, 34).Draw(t, "var")
+		}
 		c.Steps = append(c.Steps, st)
 	}
 	c.Steps = append(c.Steps, c17Step{Kind: 5})
 	c.Loop = rapid.IntRange(0, 23).Draw(t, "loop") == 0
+	if rapid.IntRange(0, 3).Draw(t, "smallOut") == 0 {
+		c.SmallOut = rapid.IntRange(1, 3).Draw(t, "outCap")
+	}
 	return c
 }
 
-func c17Name(m int) string { return fmt.Sprintf("node%d", m) }
+func (c *c17Case) name(m int) string {
+	if m < len(c.Names) {
+		return c.Names[m]
+	}
+	return fmt.Sprintf("node%d", m)
+}
+
+// event builds the member event of step si. Every entry is unique (tag "s" is
+// its serial number), so "the latest event received for the member" names
+// exactly one record.
+func (c *c17Case) event(si int) serf.MemberEvent {
+	st := c.Steps[si]
+	ev := serf.MemberEvent{Type: c17Kinds[st.Kind]}
+	for j, m := range append([]int{st.Member}, st.More...) {
+		v := st.Var + j
+		mem := serf.Member{
+			Name: c.name(m),
+			// every entry gets its own tag value so that "the latest" is decidable
+			Tags:        map[string]string{"t": fmt.Sprint(st.Tag + 10*j), "s": fmt.Sprint(si*10 + j)},
+			Port:        uint16(7946 + v%3),
+			Status:      serf.MemberStatus(v % 5),
+			ProtocolCur: uint8(v % 6),
+			DelegateCur: uint8(v % 4),
+		}
+		switch v % 5 {
+		case 1:
+			mem.Addr = net.IP{10, 0, 0, 1} // shared by every member that draws it
+		case 2:
+			mem.Addr = net.IPv4(10, 0, 0, 1) // the same address in its 16-byte form
+		case 3:
+			mem.Addr = net.IP{10, 0, 0, byte(10 + m)}
+		case 4:
+			mem.Addr = net.ParseIP(fmt.Sprintf("fd00::%d", m+1))
+		}
+		ev.Members = append(ev.Members, mem)
+	}
+	return ev
+}
 
 // bodyC17Loop drives the real loop. Judged (valid for every way the timers cut
 // the stream into quanta): everything reported was received; a member is not
@@ -72,10 +135,10 @@ func bodyC17Loop(c c17Case, x *vkit.Ctx) {
 	in := serf.VerifCoalescedEventCh(out, shutdown, 3*time.Millisecond, time.Millisecond, serf.VerifNewMemberCoalescer())
 	defer close(shutdown)
 	type rec struct {
-		kind serf.EventType
-		tag  string
+		kind   serf.EventType
+		serial string
 	}
-	received := map[string]map[rec]bool{}
+	received := map[string]map[rec]serf.Member{}
 	count := map[string]int{}
 	latest := map[string]serf.EventType{}
 	var passSent []string
@@ -88,59 +151,82 @@ func bodyC17Loop(c c17Case, x *vkit.Ctx) {
 			in <- serf.UserEvent{Name: name, LTime: serf.LamportTime(si)}
 			continue
 		}
-		ev := serf.MemberEvent{Type: c17Kinds[st.Kind]}
-		for j, m := range append([]int{st.Member}, st.More...) {
-			tag := fmt.Sprint(st.Tag + 10*j)
-			ev.Members = append(ev.Members, serf.Member{Name: c17Name(m), Tags: map[string]string{"t": tag}})
-			if received[c17Name(m)] == nil {
-				received[c17Name(m)] = map[rec]bool{}
+		ev := c.event(si)
+		for _, mem := range c.event(si).Members { // a copy of its own for the oracle
+			if received[mem.Name] == nil {
+				received[mem.Name] = map[rec]serf.Member{}
 			}
-			received[c17Name(m)][rec{ev.Type, tag}] = true
-			count[c17Name(m)]++
-			latest[c17Name(m)] = ev.Type
+			received[mem.Name][rec{ev.Type, mem.Tags["s"]}] = mem
+			count[mem.Name]++
+			latest[mem.Name] = ev.Type
 		}
 		in <- ev
 	}
-	// collect until quiet
+	// No timer decides when the stream is "quiet" (an earlier version waited
+	// for 60 ms of silence and raised false alarms on a loaded machine). The
+	// loop is one goroutine that handles its input in order, so two markers
+	// delimit the output exactly: a member event for a name of its own (never
+	// reported before, so it is never suppressed) is sent last; the flush that
+	// reports it reports everything that was pending. Once that report is
+	// seen a pass-through event is sent; the loop emits it only after that
+	// flush has returned, so when it arrives every report of the flush has
+	// been received (the channel is FIFO).
+	const sentinel = "\x00c17-sentinel"
+	const finalPass = "pass-final"
+	mon := vkit.StartMonitor()
+	defer mon.Stop()
+	in <- serf.MemberEvent{Type: serf.EventMemberJoin, Members: []serf.Member{{Name: sentinel}}}
 	lastRep := map[string]serf.EventType{}
 	reports := map[string]int{}
 	var passGot []string
-	quiet := time.NewTimer(60 * time.Millisecond)
-	defer quiet.Stop()
+	deadline := time.NewTimer(10 * time.Second)
+	defer deadline.Stop()
+	sawSentinel := false
 	for done := false; !done; {
 		select {
 		case e := <-out:
 			switch v := e.(type) {
 			case serf.MemberEvent:
 				for _, m := range v.Members {
-					if !received[m.Name][rec{v.Type, m.Tags["t"]}] {
-						x.Violationf("loop-reported-never-received", "loop: member %s reported with %v/tag %s, which was never received", m.Name, v.Type, m.Tags["t"])
+					if m.Name == sentinel {
+						if sawSentinel {
+							x.Violationf("loop-reported-too-often", "loop: the closing marker member had 1 event but was reported twice")
+							return
+						}
+						sawSentinel = true
+						in <- serf.UserEvent{Name: finalPass}
+						continue
+					}
+					if sent, ok := received[m.Name][rec{v.Type, m.Tags["s"]}]; !ok || !reflect.DeepEqual(sent, m) {
+						x.Violationf("loop-reported-never-received", "loop: member %q reported with %v and record %+v, which was never received", m.Name, v.Type, m)
 						return
 					}
 					lastRep[m.Name] = v.Type
 					reports[m.Name]++
 				}
 			case serf.UserEvent:
+				if v.Name == finalPass {
+					done = true
+					break
+				}
 				passGot = append(passGot, v.Name)
 			}
-			if !quiet.Stop() {
-				select {
-				case <-quiet.C:
-				default:
-				}
+		case <-deadline.C:
+			if g := mon.MaxGap(); g > time.Second {
+				x.Inconclusive("loop-starved")
+				return
 			}
-			quiet.Reset(60 * time.Millisecond)
-		case <-quiet.C:
-			done = true
+			x.Violationf("loop-report-missing", "loop: 10 s after the last event (no scheduler stall) the closing marker member reported=%v, the pass-through event sent after it has not arrived", sawSentinel)
+			return
 		}
 	}
 	for m, k := range latest {
 		if reports[m] > count[m] {
-			x.Violationf("loop-reported-too-often", "loop: member %s had %d events but was reported %d times", m, count[m], reports[m])
+			x.Violationf("loop-reported-too-often", "loop: member %q had %d events but was reported %d times", m, count[m], reports[m])
 			return
 		}
 		if got, ok := lastRep[m]; !ok || got != k {
-			x.Violationf("loop-app-kind-differs", "loop: stream quiet, member %s: the application last saw %v (reported=%v), its latest event is %v", m, got, ok, k)
+			x.Violationf("loop-app-kind-differs", "loop: every pending event flushed, member %q: the application last saw %v (reported=%v), its latest event is %v", m, got, ok, k)
 			return
 		}
 	}
@@ -160,30 +246,32 @@ func bodyC17(c c17Case, x *vkit.Ctx) {
 	co := serf.VerifNewMemberCoalescer()
 	type pend struct {
 		kind serf.EventType
-		tag  int
+		mem  serf.Member // the whole record carried by the event
 	}
-	pending := map[string]pend{}       // model: latest event since previous flush
+	same := func(a, b pend) bool { return a.kind == b.kind && reflect.DeepEqual(a.mem, b.mem) }
+	pending := map[string]pend{}                // model: latest event since previous flush
 	lastReported := map[string]serf.EventType{} // model: kind last reported
 	lastSeenByApp := map[string]serf.EventType{}
 	latestKind := map[string]serf.EventType{} // kind of the latest event ever received
 	flushes, suppressed, d5shape := 0, 0, false
-	multi := 0
+	multi, readdressed := 0, 0
+	lastAddr := map[string]string{}
 	updatedEarlier := map[string]bool{} // member had an update reported in an earlier quantum
 	for si, st := range c.Steps {
 		if st.Kind < 5 {
-			ev := serf.MemberEvent{Type: c17Kinds[st.Kind]}
-			for j, m := range append([]int{st.Member}, st.More...) {
-				// every entry gets its own tag value so that "the latest" is decidable
-				ev.Members = append(ev.Members, serf.Member{Name: c17Name(m), Tags: map[string]string{"t": fmt.Sprint(st.Tag + 10*j)}})
-			}
+			ev := c.event(si)
 			if !co.Handle(ev) {
 				x.Violationf("handle-refused", "step %d: coalescer refused member event kind %v", si, ev.Type)
 				return
 			}
 			co.Coalesce(ev)
-			for j, m := range append([]int{st.Member}, st.More...) {
-				pending[c17Name(m)] = pend{ev.Type, st.Tag + 10*j}
-				latestKind[c17Name(m)] = ev.Type
+			for _, mem := range c.event(si).Members { // the oracle's own copy
+				pending[mem.Name] = pend{ev.Type, mem}
+				latestKind[mem.Name] = ev.Type
+				if a, ok := lastAddr[mem.Name]; ok && a != mem.Addr.String() {
+					readdressed++
+				}
+				lastAddr[mem.Name] = mem.Addr.String()
 			}
 			if len(st.More) > 0 {
 				multi++
@@ -192,11 +280,32 @@ func bodyC17(c c17Case, x *vkit.Ctx) {
 		}
 		// flush
 		flushes++
-		out := make(chan serf.Event, 64)
-		co.Flush(out)
-		close(out)
+		var events []serf.Event
+		if c.SmallOut == 0 {
+			out := make(chan serf.Event, 64)
+			co.Flush(out)
+			close(out)
+			for e := range out {
+				events = append(events, e)
+			}
+		} else {
+			// a channel that fills: Flush must still hand over every report
+			// before it returns (coalesceLoop flushes into the application's
+			// event pipeline, whose capacity is whatever the application chose)
+			out := make(chan serf.Event, c.SmallOut-1)
+			done := make(chan struct{})
+			go func() {
+				defer close(done)
+				for e := range out {
+					events = append(events, e)
+				}
+			}()
+			co.Flush(out)
+			close(out)
+			<-done
+		}
 		got := map[string]pend{}
-		for e := range out {
+		for _, e := range events {
 			me, ok := e.(serf.MemberEvent)
 			if !ok {
 				x.Violationf("flush-non-member", "step %d: flush emitted %T", si, e)
@@ -204,12 +313,10 @@ func bodyC17(c c17Case, x *vkit.Ctx) {
 			}
 			for _, m := range me.Members {
 				if _, dup := got[m.Name]; dup {
-					x.Violationf("member-twice-in-flush", "step %d: member %s reported twice in one flush", si, m.Name)
+					x.Violationf("member-twice-in-flush", "step %d: member %q reported twice in one flush", si, m.Name)
 					return
 				}
-				var tag int
-				fmt.Sscan(m.Tags["t"], &tag)
-				got[m.Name] = pend{me.Type, tag}
+				got[m.Name] = pend{me.Type, m}
 			}
 		}
 		want := map[string]pend{}
@@ -247,16 +354,20 @@ func bodyC17(c c17Case, x *vkit.Ctx) {
 			switch {
 			case gok && !wok:
 				if _, had := pending[n]; !had {
-					x.Violationf("stale-report", "step %d (flush #%d): member %s reported (%v) although it had no new event since the previous flush", si, flushes, n, g.kind)
+					x.Violationf("stale-report", "step %d (flush #%d): member %q reported (%v) although it had no new event since the previous flush", si, flushes, n, g.kind)
 				} else {
-					x.Violationf("unsuppressed-same-kind", "step %d: member %s reported %v again although same kind as last report", si, n, g.kind)
+					x.Violationf("unsuppressed-same-kind", "step %d: member %q reported %v again although same kind as last report", si, n, g.kind)
 				}
 				return
 			case !gok && wok:
-				x.Violationf("missing-report", "step %d: member %s should be reported with %v, was not", si, n, w.kind)
+				x.Violationf("missing-report", "step %d: member %q should be reported with %v, was not", si, n, w.kind)
 				return
-			case g != w:
-				x.Violationf("not-latest", "step %d: member %s reported %v/tag%d, latest is %v/tag%d", si, n, g.kind, g.tag, w.kind, w.tag)
+			case !same(g, w):
+				if g.kind == w.kind && g.mem.Tags["s"] == w.mem.Tags["s"] {
+					x.Violationf("record-differs", "step %d: member %q reported with the latest event's kind %v but the record %+v, the event carried %+v", si, n, g.kind, g.mem, w.mem)
+				} else {
+					x.Violationf("not-latest", "step %d: member %q reported %v/tag%s (event #%s), latest is %v/tag%s (event #%s)", si, n, g.kind, g.mem.Tags["t"], g.mem.Tags["s"], w.kind, w.mem.Tags["t"], w.mem.Tags["s"])
+				}
 				return
 			}
 		}
@@ -273,11 +384,11 @@ func bodyC17(c c17Case, x *vkit.Ctx) {
 		// "the kind the application last saw for each member always equals the kind of the latest event"
 		for n, k := range latestKind {
 			if lastSeenByApp[n] != k {
-				x.Violationf("app-kind-differs", "after flush #%d: member %s: application last saw %v, latest event kind %v", flushes, n, lastSeenByApp[n], k)
+				x.Violationf("app-kind-differs", "after flush #%d: member %q: application last saw %v, latest event kind %v", flushes, n, lastSeenByApp[n], k)
 				return
 			}
 			if hk, ok := serf.VerifMemberCoalescerLastKind(co, n); !ok || hk != k {
-				x.Violationf("lastkind-state", "after flush #%d: member %s: coalescer lastEvents=%v,%v latest %v", flushes, n, hk, ok, k)
+				x.Violationf("lastkind-state", "after flush #%d: member %q: coalescer lastEvents=%v,%v latest %v", flushes, n, hk, ok, k)
 				return
 			}
 		}
@@ -291,6 +402,15 @@ func bodyC17(c c17Case, x *vkit.Ctx) {
 	}
 	if multi > 0 {
 		x.Label("multi-member-event")
+	}
+	if len(c.Names) > 0 {
+		x.Label("odd-names")
+	}
+	if readdressed > 0 {
+		x.Label("member-changed-address")
+	}
+	if c.SmallOut > 0 {
+		x.Labelf("flush-into-channel-cap=%d", c.SmallOut-1)
 	}
 	x.NonTrivial(flushes >= 2 && (d5shape || suppressed > 0))
 }
